@@ -7,21 +7,21 @@ theorem inv_nstart {s s' : State} {nid t : Nat} {e : Bool} {v : Nat} (h : Inv s)
   unfold stepNstart at hs
   split at hs
   · simp at hs
-  · dsimp only at hs
-    split at hs <;> simp at hs <;> subst hs <;> inv_close True.intro
+  · try dsimp only at hs
+    split at hs <;> simp at hs <;> subst hs <;> inv_close0
 
 theorem inv_nrun {s s' : State} {nid : Nat} (h : Inv s) (hs : stepNrun s nid = some s') : Inv s' := by
   unfold stepNrun at hs
   split at hs
   · simp at hs
   · split at hs
-    · simp at hs; subst hs; inv_close True.intro
+    · simp at hs; subst hs; inv_close0
     · split at hs
       · simp at hs
-      · split at hs <;> simp at hs <;> subst hs <;> inv_close True.intro
+      · split at hs <;> simp at hs <;> subst hs <;> inv_close0
     · split at hs
       · simp at hs
-      · split at hs <;> simp at hs <;> subst hs <;> inv_close True.intro
+      · split at hs <;> simp at hs <;> subst hs <;> inv_close0
     · simp at hs
 
 theorem inv_nwrite {s s' : State} {nid : Nat} {o : Outcome} (h : Inv s)
@@ -32,7 +32,7 @@ theorem inv_nwrite {s s' : State} {nid : Nat} {o : Outcome} (h : Inv s)
   · split at hs
     · split at hs
       · simp at hs
-      · simp at hs; subst hs; inv_close True.intro
+      · simp at hs; subst hs; inv_close0
     · simp at hs
 
 end TdModel.Rpc
